@@ -27,17 +27,20 @@ EXHAUSTIVE = {'quick': False, 'thorough': False}
 
 def cases(tier, seed):
     rng = np.random.default_rng(seed + 1717)
-    Ns = [1, 2, 3, 4, 7, 8, 16, 33, 64] if tier == 'quick' else list(range(1, 65))
+    Ns = [1, 2, 3, 4, 7, 8, 16, 33, 64] if tier == 'quick' else list(range(1, 97)) + [128]
     cs = []
     for N in Ns:
         ivs = [(-1.0, 1.0), (float(rng.uniform(-5, 0)), float(rng.uniform(0.5, 7))), (float(rng.uniform(10, 20)), float(rng.uniform(20.5, 21)))]
+        if tier != 'quick':
+            ivs += [(float(rng.uniform(-1e3, 1e3)), 0.0) for _ in range(2)]
+            ivs = [(a, b) if a < b else (a, a + float(rng.uniform(1e-2, 50))) for (a, b) in ivs]
         for (a, b) in ivs:
             for kind in ('cheb', 'ultra'):
                 cs.append(dict(kind=kind, N=N, x0=a, x1=b, seed=int(rng.integers(0, 2**31)), _cost=N))
         for (a, b) in [(0.0, 2 * np.pi), (float(rng.uniform(-3, 0)), float(rng.uniform(0.5, 9)))]:
             cs.append(dict(kind='fft', N=N, x0=a, x1=b, seed=int(rng.integers(0, 2**31)), _cost=N))
     bases = ['fft', 'chebychev', 'ultraspherical']
-    for i in range(30 if tier == 'quick' else 400):
+    for i in range(30 if tier == 'quick' else 3000):
         dim = int(rng.choice([2, 2, 3]))
         cs.append(dict(kind='nd', bases=[bases[int(rng.integers(0, 3))] for _ in range(dim)], Ns=[int(rng.integers(2, 9 if dim == 3 else 13)) for _ in range(dim)], seed=int(rng.integers(0, 2**31)), _cost=50))
     return cs
@@ -87,7 +90,7 @@ def run_cheb(case, r, ultra=False):
     x = np.asarray(H.get_1dgrid())
     xi_exp = np.cos(np.pi / N * (np.arange(N) + 0.5))
     r.check(float(np.max(np.abs(x - (fac * xi_exp + off)))) <= 1e-13 * max(abs(x0), abs(x1), 1), 'cheb-grid', f'{tag}: grid is not the mapped Chebyshev-Gauss grid')
-    xi = (x - off) / fac
+    xi = xi_exp  # exact reference points (the grid clause above ties x to them); (x - off) / fac would lose digits for far-away intervals
     u = C.chebval(xi, c)
     uh = np.asarray(H.transform(u.copy()))
     r.check(float(np.max(np.abs(uh - c))) <= 1e-12 * scale * N, 'cheb-transform', f'{tag}: transform of sum c_k T_k on the grid does not return c (err {np.max(np.abs(uh - c)):.3e})')
